@@ -527,17 +527,53 @@ class IsotxsLibrary(_XSLibrary):
     def merge(self, other):
         """Merge two XSLibraries."""
         runLog.debug("Merging XS library {} into XS library {}".format(other, self))
-        self._mergeProperties(other)
-        # merging meta data may raise an exception before knowing anything about the contained nuclides
-        # if it raises an exception, nothing has been modified in two objects
-        isotxsMeta, pmatrxMeta, gamisoMeta = self._mergeMetadata(other)
-        self._mergeNuclides(other)
+        snapshot = self._snapshotBeforeMerge(other)
+        try:
+            self._mergeProperties(other)
+            # merging meta data may raise an exception before knowing anything about the contained nuclides
+            isotxsMeta, pmatrxMeta, gamisoMeta = self._mergeMetadata(other)
+            self._mergeNuclides(other)
+        except Exception:
+            # a conflict found part-way must leave this library as it was before the call
+            self._rollBackMerge(snapshot, other)
+            raise
         # only vampire the __dict__ if successful
         other.__dict__ = {}
         # only reassign metadata if successful
         self.isotxsMetadata = isotxsMeta
         self.pmatrxMetadata = pmatrxMeta
         self.gamisoMetadata = gamisoMeta
+
+    def _snapshotBeforeMerge(self, other):
+        """Shallow state of everything ``merge`` may touch: own attributes and overlapping nuclides."""
+        state = dict(self.__dict__)
+        state["_orderedNuclideLabels"] = list(self._orderedNuclideLabels)
+        state["_nuclides"] = dict(self._nuclides)
+        nuclideStates = {}
+        for nuclideKey in other.nuclideLabels:
+            nuclide = self._nuclides.get(nuclideKey)
+            if nuclide is not None:
+                nuclideStates[nuclideKey] = (
+                    dict(nuclide.__dict__),
+                    dict(nuclide.micros.__dict__),
+                    dict(nuclide.gammaXS.__dict__),
+                )
+        return state, nuclideStates
+
+    def _rollBackMerge(self, snapshot, other):
+        state, nuclideStates = snapshot
+        for nuclideKey, (nucState, microState, gammaState) in nuclideStates.items():
+            nuclide = state["_nuclides"][nuclideKey]
+            nuclide.__dict__.clear()
+            nuclide.__dict__.update(nucState)
+            nuclide.micros.__dict__.clear()
+            nuclide.micros.__dict__.update(microState)
+            nuclide.gammaXS.__dict__.clear()
+            nuclide.gammaXS.__dict__.update(gammaState)
+        for _nuclideKey, nuclide in other.items():
+            nuclide.container = other
+        self.__dict__.clear()
+        self.__dict__.update(state)
 
     def _mergeProperties(self, other):
         properties.unlockImmutableProperties(other)
